@@ -76,7 +76,7 @@ type FaultPlan struct {
 
 // DelayPlan perturbs scheduling at the seams.
 type DelayPlan struct {
-	Mode string `json:"mode"` // none | gosched | sleep | mixed
+	Mode string `json:"mode"` // none | gosched | sleep | mixed | slow
 	Seed uint64 `json:"seed,omitempty"`
 }
 
@@ -113,6 +113,13 @@ type delayer struct {
 
 func (d *delayer) pause(site uint64) {
 	if d == nil || d.plan.Mode == "" || d.plan.Mode == "none" {
+		return
+	}
+	if d.plan.Mode == "slow" {
+		// a slow device: every Read takes 60-120 ms (runs last seconds; nothing may time out)
+		if site == 1 {
+			time.Sleep(time.Duration(60+gen.NewRng(gen.Mix(d.plan.Seed, atomic.AddUint64(&d.ctr, 1))).Intn(60)) * time.Millisecond)
+		}
 		return
 	}
 	k := atomic.AddUint64(&d.ctr, 1)
